@@ -206,7 +206,7 @@ impl VM {
         if let Value::P(p) = val {
             self.push(
                 Rc::new(match t {
-                    CastType::Str => Value::P(Primitive::Str(format!("{}", p).into())),
+                    CastType::Str => Value::P(Primitive::Str(p.into())),
                     CastType::Int => Value::P(Primitive::Int(p.try_into()?)),
                     CastType::Float => Value::P(Primitive::Float(p.try_into()?)),
                     CastType::Bool => Value::P(Primitive::Bool(p.try_into()?)),
